@@ -840,20 +840,43 @@ pub fn hdr_json(bytes: &[u8], unique: u64) -> Value {
            "f": {}, "bits": {}, "num": {}, "names": [], "pay": pay(&[]), "list": [], "nbytes": bytes.len()})
 }
 
-fn run_one(server: &Server<Arc<ScriptedFs>>, fs: &ScriptedFs, pair: &SeqPair, rng: &mut Rng, tr: &str, bytes: &[u8], cap: usize, vu: bool) -> Outcome {
+/// Counts the MetricsHook calls of one transaction (collect, release, on_init_params).
+#[derive(Default)]
+pub struct CountHook {
+    pub n: std::sync::Mutex<(u32, u32, u32)>,
+}
+impl fuse_backend_rs::api::server::MetricsHook for CountHook {
+    fn collect(&self, _ih: &fuse_backend_rs::abi::fuse_abi::InHeader) {
+        self.n.lock().unwrap().0 += 1;
+    }
+    fn on_init_params(&self, _p: &fuse_backend_rs::api::server::InitParams) {
+        self.n.lock().unwrap().2 += 1;
+    }
+    fn release(&self, _oh: Option<&fuse_backend_rs::abi::fuse_abi::OutHeader>) {
+        self.n.lock().unwrap().1 += 1;
+    }
+}
+
+fn run_one(server: &Server<Arc<ScriptedFs>>, fs: &ScriptedFs, pair: &SeqPair, rng: &mut Rng, tr: &str, bytes: &[u8], cap: usize, vu: bool) -> (Outcome, (u32, u32, u32)) {
     fs.take_log();
     let mut cache = NullCache;
+    let hook = CountHook::default();
     let vuo: Option<&mut dyn fuse_backend_rs::transport::FsCacheReqHandler> = if vu { Some(&mut cache) } else { None };
-    if tr == "fusedev" {
-        run_fusedev(server, bytes, cap, vuo, pair)
+    let o = if tr == "fusedev" {
+        vharness::xport::run_fusedev_hook(server, bytes, cap, vuo, pair, Some(&hook))
     } else {
         let rl = split_lens(rng, bytes.len(), 0);
         let wl = split_lens(rng, cap, 0);
         let roff = rng.below(4096);
         let woff = rng.below(4096);
         let gap = *rng.pick(&[0u64, 1, 64, 4096]);
-        run_virtio(server, bytes, &rl, &wl, roff, woff, gap, vuo)
-    }
+        vharness::xport::run_virtio_with(bytes, &rl, &wl, roff, woff, gap, |r, w| match server.handle_message(r, w, vuo, Some(&hook)) {
+            Ok(n) => format!("ok:{n}"),
+            Err(e) => format!("err:{}", vharness::xport::err_name(&e)),
+        })
+    };
+    let n = *hook.n.lock().unwrap();
+    (o, n)
 }
 
 fn run_classes(args: &[String]) {
@@ -883,10 +906,10 @@ fn run_classes(args: &[String]) {
                 }
             };
             fs.set(cr.script.clone());
-            let o = run_one(&server, &fs, &pair, &mut rng, c["tr"].as_str().unwrap(), &cr.bytes, cr.cap, c["vu"].as_bool().unwrap());
+            let (o, hk) = run_one(&server, &fs, &pair, &mut rng, c["tr"].as_str().unwrap(), &cr.bytes, cr.cap, c["vu"].as_bool().unwrap());
             let b = Built { bytes: cr.bytes.clone(), req: hdr_json(&cr.bytes, cr.unique), script: cr.script.clone(), cap_hint: 0 };
             let opname = c["op"].as_str().unwrap();
-            emit_tx(&mut tr, &abi, &fs, c["tr"].as_str().unwrap(), opname, "class", &b, &o, json!({"cap": cr.cap, "cls": c, "pred": case["o"]}));
+            emit_tx(&mut tr, &abi, &fs, c["tr"].as_str().unwrap(), opname, "class", &b, &o, json!({"cap": cr.cap, "cls": c, "pred": case["o"], "hooks": {"collect": hk.0, "release": hk.1, "init_params": hk.2}}));
         }
     }
     tr.emit(&json!({"e": "End", "n": tr.n, "skipped": skipped}));
@@ -970,14 +993,14 @@ fn run_random(args: &[String]) {
         let cap = *rng.pick(&[0usize, 1, 15, 16, 17, 24, 100, 144, 160, 4096, 70_000]);
         let trn = if rng.chance(1, 2) { "fusedev" } else { "virtiofs" };
         let vu = rng.chance(1, 2);
-        let o = run_one(&server, &fs, &pair, &mut rng, trn, &bytes, cap, vu);
+        let (o, hk) = run_one(&server, &fs, &pair, &mut rng, trn, &bytes, cap, vu);
         // the opcode the server saw (if a whole header was supplied) names the transaction
         let code = if bytes.len() >= 40 { u32le(&bytes, 4) as u64 } else { u64::MAX };
         let seen = ops.iter().find(|o| abi.konst(abi.op(o)["code"].as_str().unwrap()) == code).cloned()
             .unwrap_or_else(|| if code == abi.konst("FUSE_INIT") { "INIT".to_string() } else { "HOLE".to_string() });
         let unique = if bytes.len() >= 16 { u64le(&bytes, 8) } else { 0 };
         let b = Built { bytes: bytes.clone(), req: hdr_json(&bytes, unique), script, cap_hint: 0 };
-        emit_tx(&mut tr, &abi, &fs, trn, &seen, "random", &b, &o, json!({"cap": cap, "from": opname, "hex": if bytes.len() <= 256 { bytes.iter().map(|x| format!("{x:02x}")).collect::<String>() } else { String::new() }}));
+        emit_tx(&mut tr, &abi, &fs, trn, &seen, "random", &b, &o, json!({"cap": cap, "from": opname, "hooks": {"collect": hk.0, "release": hk.1, "init_params": hk.2}, "hex": if bytes.len() <= 256 { bytes.iter().map(|x| format!("{x:02x}")).collect::<String>() } else { String::new() }}));
     }
     tr.emit(&json!({"e": "End", "n": tr.n}));
     tr.flush();
